@@ -200,6 +200,10 @@ def gen_meta(rng, tier):
         k = rng.randint(1, min(2, nd))
         axes = sorted(rng.sample(range(nd), k))
         cases.append({'kind': rng.choice(kinds), 'shape': shape, 'axes': axes, 'seed': rng.randrange(10 ** 6)})
+    # fixed: the first axis named as 0 / -ndim, as int and as 1-tuple (a truthiness test on dim would read 0 as "no dim")
+    for shape in ([3, 4], [2, 3, 4]):
+        for kind in ('functional', 'findiff', 'filter'):
+            cases.append({'kind': kind, 'shape': shape, 'axes': [0], 'seed': 7})
     # Rotation.mean over several batch dims: every order / sign of the dims, with and without keepdim
     for _ in range(4 if tier == 'quick' else 60):
         nd = rng.randint(2, 3)
@@ -275,6 +279,13 @@ def impl_meta(c):
                 f = L1Norm(dim=tuple(enc), divide_by_n=True, keepdim=True)
                 h = L2NormSquared(dim=tuple(enc), divide_by_n=False, keepdim=False)
                 res = torch.cat([f(x)[0].flatten(), h(x)[0].flatten(), f.prox(x, 0.5)[0].flatten()])
+                if len(enc) == 1:     # one axis named by a plain int (incl. 0) instead of a 1-tuple: the same functional
+                    fi = L1Norm(dim=enc[0], divide_by_n=True, keepdim=True)
+                    hi = L2NormSquared(dim=enc[0], divide_by_n=False, keepdim=False)
+                    ri = [fi(x)[0], hi(x)[0], fi.prox(x, 0.5)[0]]
+                    rt = [f(x)[0], h(x)[0], f.prox(x, 0.5)[0]]
+                    if any(a.shape != b.shape or not torch.equal(a, b) for a, b in zip(ri, rt)):
+                        raise AssertionError(f'dim={enc[0]} (int) gives a different functional than dim=({enc[0]},)')
             elif kind == 'functional_target':
                 # target (and weight) with more leading dims than x: the reduced sizes are those of the broadcast shape
                 tgt = torch.randint(-3, 4, (2, *c['shape']), generator=torch.Generator().manual_seed(c['seed'] + 1)).to(torch.float64)
